@@ -1,4 +1,5 @@
 import ExaModel.Lemmas.SessionCheck
+import ExaModel.Lemmas.PeerPy
 import ExaModel.Generated.FsmTable
 set_option linter.unusedSimpArgs false
 set_option linter.unusedVariables false
@@ -139,6 +140,18 @@ theorem up_down_alternate (cfg : Cfg) (rib : Bool) (evs : List Event) (xs ys zs 
   rw [h] at hg
   exact accepted_up_down hg
 
+/-- **The model is the code** (an incoming connection): `Peer.handle_connection`, translated statement by
+    statement from /repo on this run (`harness/pylite.py` → `Generated/PyPeer.lean`) and run on the state of
+    M-Session, refuses the connection exactly when the model's `refuses` holds — with NOTIFICATION 6/3 when
+    `stop()` ran, 6/7 otherwise (ESTABLISHED, or OPENCONFIRM and the peer's identifier is the lower one) — and
+    otherwise adopts it after closing the connection in hand exactly when there was one.  The trace theorems
+    above go through `handleConnection`, which branches on `refuses`: a dropped test, a swapped comparison of
+    the identifiers or a changed order in the code breaks this obligation directly. -/
+theorem handle_connection_py_is_model (s : State) :
+    (refuses s = true → pyHandle s = .raise 6 (if (!s.restart && s.teardown.isSome) then 3 else 7)) ∧
+    (refuses s = false → pyHandle s = .ret () ⟨s.restart, true, s.conn.isSome⟩) :=
+  py_handle_refuses s
+
 /-! ## the hypotheses are satisfiable, the conclusions are not vacuous -/
 
 /-- a whole session: establishment, routes and End-of-RIB in ESTABLISHED, teardown with cease, restart. -/
@@ -154,5 +167,12 @@ example :
 example :
     (trace plain false [.start, .connectOk, .recv 1 (.openOk false), .recv 1 .keepalive, .eof 1, .start, .connectOk,
       .recv 2 (.openOk true), .recv 2 .keepalive]).filter (fun o => o = .up ∨ o = .down) = [.up, .down, .up] := by decide
+
+/-- the translated method on two reachable states: ESTABLISHED refuses with 6/7; OPENCONFIRM with the peer's
+    identifier higher than ours adopts the incoming connection and closes the one in hand -/
+example : pyHandle { cfg := plain, fsm := .established, conn := some { id := 1 } } = .raise 6 7 := by decide
+example : pyHandle { cfg := plain, fsm := .openconfirm, conn := some { id := 1, idLow := false } } = .ret () ⟨true, true, true⟩ := by decide
+example : pyHandle { cfg := plain, fsm := .openconfirm, conn := some { id := 1, idLow := true } } = .raise 6 7 := by decide
+example : pyHandle { cfg := plain, fsm := .idle, restart := false, teardown := some 3 } = .raise 6 3 := by decide
 
 end Exa.Props.C05
